@@ -38,7 +38,7 @@ func init() {
 	})
 }
 
-var faultAlphabet = []string{"none", "refuse", "hang-headers", "rst-after-headers", "short-body", "garbage", "5xx", "slow-body", "client-abort-upload", "client-abort-download", "stall-mid-body", "dial-blackhole"}
+var faultAlphabet = []string{"none", "refuse", "hang-headers", "rst-after-headers", "short-body", "garbage", "5xx", "slow-body", "client-abort-upload", "client-abort-download", "stall-mid-body", "dial-blackhole", "odd-status", "client-stall-upload"}
 
 func runSysFault(x *X) {
 	c := x.C
@@ -169,7 +169,7 @@ func runSysFault(x *X) {
 			refused[ex.id] = true
 		case "dial-blackhole":
 			refused[ex.id] = true
-		case "hang-headers", "rst-after-headers", "short-body", "garbage":
+		case "hang-headers", "rst-after-headers", "short-body", "garbage", "odd-status":
 			rs.fault = f
 		case "5xx":
 			rs.status = []int{500, 502, 503, 504}[c.Intn(4, "5xx")]
@@ -188,7 +188,10 @@ func runSysFault(x *X) {
 				rs.body = []byte("stalling body payload")
 			}
 			rs.steps = []respStep{{kind: "write", n: len(rs.body) / 2}, {kind: "hang"}}
-		case "client-abort-upload":
+		case "client-abort-upload", "client-stall-upload":
+			// (stall: the client stops in the middle of its body and keeps the connection open --
+			// server.timeouts.read is what ends that)
+			ex.stallUpload = f == "client-stall-upload"
 			if len(ex.body) < 2 {
 				ex.method, ex.body = "POST", genBody(x, "req2", 64)
 				if len(ex.body) < 2 {
@@ -238,6 +241,12 @@ func runSysFault(x *X) {
 		extra: func() []string { setMode(); return nil }})
 	setMode()
 	for _, p := range stdLogWatcher.take() {
+		if strings.Contains(p, "invalid WriteHeader code 99") {
+			// the injected out-of-range status: it is net/http's server that refuses to write it;
+			// the exchange ends with a closed connection, which is an allowed ending
+			x.Probe("odd-status-refused-by-net/http")
+			continue
+		}
 		x.Violate("C03", "C03/panic-serving", "net/http reported: %s", p)
 	}
 	// a deliberately generous sum of every configured timeout: only an unbounded hang is flagged
@@ -360,6 +369,12 @@ func runSysFault(x *X) {
 		x.Probe("recovered")
 	}
 	for _, p := range stdLogWatcher.take() {
+		if strings.Contains(p, "invalid WriteHeader code 99") {
+			// the injected out-of-range status: it is net/http's server that refuses to write it;
+			// the exchange ends with a closed connection, which is an allowed ending
+			x.Probe("odd-status-refused-by-net/http")
+			continue
+		}
 		x.Violate("C03", "C03/panic-serving", "net/http reported: %s", p)
 	}
 
